@@ -1,4 +1,5 @@
 import NjectProofs.IncludeSkip
+import NjectProofs.IncludeMono
 import NjectProps.C15b
 /-
   C16 (excluded providers are inert), the part that is a theorem about the include computation:
@@ -66,6 +67,46 @@ theorem C16_pruned_providers_leave_no_trace (ti : TyInfo) (funcs : List CP) (can
     refine ⟨hk.1, hk.2.1, fun k => ?_⟩
     rw [(hsame k).1, (hsame k).2]
     exact hk.2.2 k
+
+/-- what pruning hands on: the mark is exactly "excluded" -/
+theorem pruneStages_cannot_eq (ch : Chain) (j : Nat) :
+    ((pruneStages ch).get j).cannot = ((pruneStages ch).get j).excluded := by
+  unfold pruneStages
+  simp only []
+  generalize proposalLoop _ _ = x
+  by_cases hj : j < x.length
+  · have : Chain.get (x.map fun f => { f with cannot := f.excluded }) j = { (x.get j) with cannot := (x.get j).excluded } := by
+      simp [Chain.get, List.getD, List.getElem?_map, List.getElem?_eq_getElem hj]
+    rw [this]
+  · rw [get_default_of_ge _ j (by simpa using hj)]; rfl
+
+/-- **C16 (not included)**: whenever the include computation accepts a provider list, a provider that pruning
+    excluded is not included in the accepted chain (and keeps its mark): the final validity check only ever takes
+    providers out. -/
+theorem C16_pruned_providers_are_not_included (ti : TyInfo) (funcs : List CP) (cannot0 : List Nat) (pre ch : Chain)
+    (hpre : inclusionBeforeFinal ti funcs cannot0 = .ok pre) (h : computeInclusion ti funcs cannot0 = .ok ch)
+    (j : Nat) (hj : (pre.get j).cannot = true) : (ch.get j).inc = false ∧ (ch.get j).cannot = true := by
+  have hv : validate true pre = .ok ch := by
+    unfold computeInclusion at h
+    rw [hpre] at h
+    simp only at h
+    split at h
+    · cases h
+    · rename_i chf hv
+      cases h
+      exact hv
+  apply validate_excl true pre ch hv j
+  -- the mark and the exclusion flag agree in what pruning hands on, and the flow computation keeps both
+  unfold inclusionBeforeFinal at hpre
+  split at hpre
+  · cases hpre
+  · rename_i ch1 hv1
+    have key : ∀ x : Chain, x = pre → XF (pruneStages ch1) x → (pre.get j).excluded = true := by
+      intro x hx xf
+      subst hx
+      rw [(xf.2 j).1, ← pruneStages_cannot_eq, ← (xf.2 j).2.1]
+      exact hj
+    exact key _ (by injection hpre) (providesReturns_XF ti (pruneStages ch1) (initPosOf funcs))
 
 /-- premises are satisfiable: provider 1 is Shun'd and a farther provider of its type remains; it is excluded, and
     the final function's dependency is provider 0 -/
